@@ -389,7 +389,7 @@ def template_body(case):
             os.makedirs(top)
             C16.write_tree(top, dict(conv='vectors', config='env', photo=False,
                                      obs=[dict(plate=300, mjd=55100, nf=4, npix=npix, c0=3.55, c1=1e-4), dict(plate=301, mjd=55300, nf=4, npix=npix, c0=3.55, c1=1e-4)]))
-            os.environ['BOSS_SPECTRO_REDUX'] = top
+            os.environ['BOSS_SPECTRO_REDUX'] = os.path.join(top, 'boss')
         class QuietLog(object):
             # verbose=True switches the package logger to DEBUG; the messages themselves are of no interest here
             def __getattr__(self, n):
